@@ -14,11 +14,11 @@ C = {
     'For every template rule z3 decides matches(rule, doc) != reference(rule text, doc) for all documents within the bounds (absent fields, every value kind, arrays, nested objects).',
     MODELS + '; reference semantics written from README/rustdoc/property statements, pinned to the tree on corners they leave open (DESIGN C02)'),
  'C03': ('model_checking', '3/C03',
-    'panic reachability by symbolic execution of rustc MIR of the solver on every accepted template rule and optimiser output (z3), native catch_unwind for optimise(), parser MIR over symbolic token vectors for operand kinds',
+    'panic reachability by symbolic execution of rustc MIR of the solver on every accepted template rule and optimiser output (z3), native catch_unwind for optimise() / validate() on every template and on the engine-limit rules under all 16 switch combinations, parser MIR over symbolic token vectors for operand kinds',
     'For every accepted template rule and every optimiser output, z3 decides whether any panic path of the real solver MIR is feasible for any document within the bounds; non-predicate operands must be rejected by the real parser MIR for all token vectors within the bound.',
     MODELS + '; panics inside third-party engines are outside the claim'),
  'C04': ('model_checking', '3/C04',
-    'panic reachability by symbolic execution of rustc MIR of into_identifier and the tokeniser (one loop iteration from an arbitrary suffix, plus whole function on short inputs) over symbolic well-formed UTF-8 byte strings; parse() over symbolic token vectors (C05 run); native catch_unwind sweep of YAML shapes (auxiliary, concrete)',
+    'panic reachability by symbolic execution of rustc MIR of into_identifier and the tokeniser (one loop iteration from an arbitrary suffix, plus whole function on short inputs) over symbolic well-formed UTF-8 byte strings; parse() over symbolic token vectors (C05 run); native catch_unwind sweep of YAML shapes and of the engine-limit rules (auxiliary, concrete)',
     'Every path of the textual layers over all strings within the byte bound ends in Return(Ok|Err); each tokeniser iteration makes progress; slicing uses Rust\'s real panic conditions.',
     'char predicates exact on ASCII / uninterpreted above; parse::<i64> and f64 grammar exact, f64 value uninterpreted; regex validity uninterpreted; serde_yaml not encoded'),
  'C05': ('model_checking', '3/C05',
@@ -38,7 +38,7 @@ C = {
     'All member lists of the template families x thresholds 0..len+1 x all scalar documents within the bounds, for key quantifiers and identifier quantifiers.',
     MODELS + '; members = templates'),
  'C09': ('model_checking', '3/C09',
-    'symbolic execution of rustc MIR of the comparison arm with 64-bit bit-vector / IEEE double cells and symbolic constants; z3 against 65-bit and IEEE relations',
+    'symbolic execution of rustc MIR of the comparison arm with 64-bit bit-vector / IEEE double cells and symbolic constants; z3 against 65-bit and IEEE relations; into_identifier MIR on <op><sign><1..18 symbolic digits> against the exact decimal value',
     'All operator x constant x field-value triples at once (cells and constants are solver variables over the full i64/u64/f64 ranges); exact for same-kind comparisons and in-range casts, sound across kinds.',
     'parse::<i64> exact model on bounded strings; parse::<f64>/number to_string uninterpreted; Rust `as` = saturating'),
  'C10': ('model_checking', '3/C10',
@@ -46,15 +46,15 @@ C = {
     'No panic for any key within the byte bound; for every enumerated path up to depth D (with indices and malformed shapes) and every object graph within the bounds the returned value is exactly the addressed one or none; nested mapping == dotted key when intermediates are objects.',
     'Object::get on user objects = exact key lookup; Array::iter in order; usize::from_str exact'),
  'C11': ('other', '3/C11',
-    'symbolic execution of rustc MIR (dump with --features json) of every AsValue adapter on symbolic inputs; YAML and JSON Number adapters against one abstract number under serde\'s is_*/as_* contract; comparison kernel Int(x) vs UInt(x) by z3',
-    'Partial (adapters only): primitives keep value and signedness for all values; YAML and JSON scalars / numbers map to the same Value with no reachable unreachable!(); Option/Vec/HashSet pass through; the comparison kernel does not distinguish Int(x>=0) from UInt(x).',
+    'symbolic execution of rustc MIR (dump with --features json) of every AsValue adapter on symbolic inputs; YAML and JSON Number adapters against one abstract number under serde\'s is_*/as_* contract; comparison kernel Int(x) vs UInt(x) by z3; solver-derived witness documents (per result value and document shape) evaluated natively as Object / serde_yaml / serde_json (concolic, labelled)',
+    'Adapters: primitives keep value and signedness for all values; YAML and JSON scalars / numbers map to the same Value with no reachable unreachable!(); Option/Vec/HashSet pass through; the comparison kernel does not distinguish Int(x>=0) from UInt(x). Representations: every witness derived from the real solver + Object::find MIR gets the same verdict in the three representations (not a forall claim).',
     'serde Number contract modelled; Value variant order read from the registry sources; map lookups and user Document impls outside the claim'),
  'C12': ('other', '3/C12',
     'z3 equivalence of all optimiser outputs of one (rule, switches) on real solver MIR; write guard on every explored path (purity); repeated native optimise() calls for the printed form (concrete)',
     'Order independence and purity are decided over all documents / all explored paths; "prints the same" is decided by repeated concrete runs (labelled); thread schedules are not explored.',
     MODELS + '; hash-order variants collected by repetition'),
  'C13': ('model_checking', '3/C13',
-    'symbolic execution of rustc MIR of Rule::validate over symbolic example states (is_mapping, matches) with solve() as an arbitrary boolean per example; z3 against the specification of validate(); native replay through rules realising the model',
+    'symbolic execution of rustc MIR of Rule::validate over symbolic example states (is_mapping, is_empty, matches, pairwise equality) with solve() as an arbitrary boolean per example; z3 against the specification of validate(); native replay through rules realising the model',
     'All example lists with up to 3 positives and 3 negatives and all 2^(2k) example states: no panic, Ok(true) iff every example is right, Err(Validation) naming exactly the failing examples.',
     'solve() abstracted to a boolean per example (C02 covers its meaning); format!/Error::with modelled to keep which examples are mentioned'),
  'C15': ('other', '3/C15',
@@ -62,8 +62,8 @@ C = {
     'into_identifier is the only function that differs; for all ASCII pattern strings within the byte bound the two builds produce the same identifier (kind, payload, flag); template trees identical.',
     'regex validity / float value uninterpreted (same text, same answer); non-ASCII lower-casing outside the claim'),
  'C16': ('other', '3/C16',
-    'symbolic execution of rustc MIR with a recording symbolic document; z3 decides feasibility of every recorded request for a key the rule does not write',
-    'Every Document::find/Object::get reaching the user document on any feasible path of any template tree / optimiser output is for a written key; verdict terms mention only requested cells.',
+    'symbolic execution of rustc MIR with a recording symbolic document; z3 decides feasibility of every recorded request for a key the rule text does not write; z3 decides whether anything unaddressed that the verdict term mentions (e.g. Object::len) can change the verdict',
+    'Every Document::find/Object::get reaching the user document on any feasible path of any template tree / optimiser output is for a written key; verdict terms depend only on requested cells.',
     MODELS),
  'C17': ('translation_validation', '3/C17',
     'symbolic execution of rustc MIR on the original and on every permuted rule text (natively loaded); z3 decides truth inequality over a symbolic document',
